@@ -18,6 +18,7 @@ import (
 	"github.com/anyproto/any-sync/net/peer"
 	"github.com/anyproto/any-sync/net/secureservice"
 	"github.com/anyproto/any-sync/net/streampool/streamhandler"
+	"github.com/anyproto/any-sync/util/simhook"
 )
 
 const CName = "common.net.streampool"
@@ -253,6 +254,7 @@ func (s *streamPool) addStream(drpcStream drpc.Stream, queueSize int, tags ...st
 	if err != nil {
 		return nil, err
 	}
+	simhook.Yield("streampool.addStream")
 	s.mu.Lock()
 	defer s.mu.Unlock()
 	s.lastStreamId++
@@ -294,6 +296,7 @@ func (s *streamPool) Send(ctx context.Context, msg drpc.Message, peerGetter Peer
 }
 
 func (s *streamPool) SendById(ctx context.Context, msg drpc.Message, peerIds ...string) (err error) {
+	simhook.Yield("streampool.SendById")
 	s.mu.Lock()
 	var streamsByPeer [][]*stream
 	for _, peerId := range peerIds {
@@ -341,6 +344,7 @@ func (s *streamPool) sendOne(ctx context.Context, p peer.Peer, msg drpc.Message)
 }
 
 func (s *streamPool) getStreams(ctx context.Context, p peer.Peer) (streams []*stream, err error) {
+	simhook.Yield("streampool.getStreams")
 	s.mu.Lock()
 	// check cached streams
 	streamIds := s.streamIdsByPeer[p.Id()]
@@ -382,6 +386,7 @@ func (s *streamPool) openStream(ctx context.Context, p peer.Peer) *openingProces
 	go func() {
 		// start stream opening in separate goroutine to avoid lock whole pool
 		defer func() {
+			simhook.Yield("streampool.openStream.done")
 			s.mu.Lock()
 			defer s.mu.Unlock()
 			close(op.ch)
@@ -409,6 +414,7 @@ func (s *streamPool) openStream(ctx context.Context, p peer.Peer) *openingProces
 }
 
 func (s *streamPool) Broadcast(ctx context.Context, msg drpc.Message, tags ...string) (err error) {
+	simhook.Yield("streampool.Broadcast")
 	s.mu.Lock()
 	var streams []*stream
 	var seen map[uint32]struct{}
@@ -514,6 +520,7 @@ func (s *streamPool) RemoveTagsById(streamId uint32, tags ...string) error {
 }
 
 func (s *streamPool) removeStream(streamId uint32) {
+	simhook.Yield("streampool.removeStream")
 	s.mu.Lock()
 	st := s.streams[streamId]
 	if st == nil {
